@@ -2,7 +2,9 @@
 // map datastore) is driven one publishBlockInternal step at a time through random sequences of
 // sequencing-layer responses (non-empty / empty / absent batches, transient errors, equal, increasing and
 // decreasing timestamps, transactions of 0..64 bytes and one of 100 kB) and execution-layer outcomes
-// (errors; state roots of length 0; returned maxBytes values from 0 to 1<<20, mostly below the size of later batches).
+// (errors; state roots of length 0; returned maxBytes values from 0 to 1<<20, mostly below the size of later batches),
+// with RESTARTS of the node on the same database between steps - in particular after steps that failed in the
+// execution layer and left the early-saved pending block above the recorded state (Props/C01.v (4), (4')).
 // Go oracle (harness/producer/oracle.go): every committed block is hash-linked, time-monotone, commits to
 // the batch it was built from, carries the delayed state root, is signed by the genesis proposer and
 // passes ValidateBasic / types.Validate / execValidate; plus the no-wedge probe (three well-formed
@@ -88,12 +90,32 @@ func gen(r *rand.Rand, tier string, c int, _ int64) (producer.Cfg, []producer.It
 		it.Peek = r.Intn(100) < 25 // a client reads the store while the execution layer works
 		execOutcome(&it)
 		h = append(h, it)
+		// the node is RESTARTED on the same database between two steps (NewManager -> getInitialState with
+		// whatever the steps so far left in the store; no crash inside a step: the responses were well-formed
+		// or not, the step returned).  Rarely after a step that went through, often after one that the
+		// execution layer failed (the early-saved pending block then lies above the recorded state), and
+		// sometimes twice in a row; the InitChain answer of a restart is only consulted when no state is stored.
+		p := 5
+		if it.ExecErr {
+			p = 45
+		}
+		for k := 0; k < 2 && r.Intn(100) < p; k++ {
+			b := producer.Item{T: "boot", InitErr: r.Intn(100) < 8}
+			execOutcome(&b)
+			h = append(h, b)
+			if b.InitErr && r.Intn(2) == 0 {
+				b2 := producer.Item{T: "boot"}
+				execOutcome(&b2)
+				h = append(h, b2)
+			}
+			p = 30
+		}
 	}
 	return cfg, h
 }
 
 func TestVerif(t *testing.T) {
-	rule := "boot (5%: a first boot whose InitChain fails) then 1..40 (quick) / 1..120, every 10th case 1..300 (thorough) production steps; sequencer response 50% non-empty batch (1-5 txs of 1-64 bytes, 5% zero-length, 2.5% one 100 kB tx), 25% empty batch, 12% absent batch, 13% transient error; timestamp delta 15% regress / 10% equal / 75% advance by 1..5000 ms; 7% execution errors; every successful InitChain / ExecuteTxs hands back a state root of length 0 (nil or empty) with probability 12% and a maxBytes value of 1<<20 (60%) or one of {0, 1, 10, 100, 100, 1000} (40%) - the sequencer double ignores the MaxBytes of the request, so later batches (1-5 txs of 1-64 bytes, the 100 kB tx) are routinely larger than the last reported value; in 25% of the steps a client of the node reads the height being produced and the one below through the node's store while the execution layer works (between the early and the final save); after EVERY item the blocks the node's store serves (same store object as the Manager's) at the tip, the pending height, the heights written and two older heights are checked and compared with a freshly opened store; initial height from {1,1,2,5,1000}; lazy/normal mode flag random; non-trivial = at least 3 steps and one committed block; distinct = distinct (configuration, history)"
+	rule := "boot (5%: a first boot whose InitChain fails) then 1..40 (quick) / 1..120, every 10th case 1..300 (thorough) production steps; sequencer response 50% non-empty batch (1-5 txs of 1-64 bytes, 5% zero-length, 2.5% one 100 kB tx), 25% empty batch, 12% absent batch, 13% transient error; timestamp delta 15% regress / 10% equal / 75% advance by 1..5000 ms; 7% execution errors; after a step the node is restarted on the same database (boot item: NewManager + getInitialState, the running process is discarded; no crash inside a step) with probability 5%, 45% after a step whose execution was scripted to fail (the early-saved pending block then lies above the recorded state), a second restart follows with 30%, 8% of the restarts have a failing InitChain (consulted only when no state is stored); every successful InitChain / ExecuteTxs hands back a state root of length 0 (nil or empty) with probability 12% and a maxBytes value of 1<<20 (60%) or one of {0, 1, 10, 100, 100, 1000} (40%) - the sequencer double ignores the MaxBytes of the request, so later batches (1-5 txs of 1-64 bytes, the 100 kB tx) are routinely larger than the last reported value; in 25% of the steps a client of the node reads the height being produced and the one below through the node's store while the execution layer works (between the early and the final save); after EVERY item the blocks the node's store serves (same store object as the Manager's) at the tip, the pending height, the heights written and two older heights are checked and compared with a freshly opened store; initial height from {1,1,2,5,1000}; lazy/normal mode flag random; non-trivial = at least 3 steps and one committed block; distinct = distinct (configuration, history)"
 	producer.Main(t, "C01", gen, rule, func(cfg producer.Cfg, h []producer.Item, obs []producer.Obs) bool {
 		steps, commits := 0, 0
 		for i, it := range h {
